@@ -49,6 +49,12 @@ CHECKS['C05'] = ('fault_enumeration', 'same exhaustive scope-tree exploration; o
     'end at the virtual time of the first failure, and abort all remaining children (containment monitor).',
     'Trusts the outcome table in vk/checks/c05.py; GeneratorExit objects are compared by type.',
     'DESIGN.md section 3 C05')
+CHECKS['C08'] = ('exploration', 'complete enumeration of condition expression trees (depth <= 2) x atom valuations for the algebra, and x bounded change histories x waiters on the real kernel for the dynamics, against an independent boolean evaluator',
+    'Every expression tree of depth <= 2 over 9 atoms is (i) evaluated under every valuation and clock value: bool(e), ~e, ~~e, De Morgan must agree with a 15-line evaluator; '
+    '(ii)/(iii) awaited by 1-2 waiters under every change history of the bound (incl. changes reverted within the time step by another activity): a wait may only return while the evaluator says true on the real atom values read at that moment, '
+    'and at the end of EVERY time step nobody may still be waiting on an expression that holds.',
+    'Trusts the evaluator and the atom snapshots; depth <= 2, histories <= 2 (quick) / 3 (thorough) steps.',
+    'DESIGN.md section 3 C08')
 PENDING = {}
 
 def main():
